@@ -677,7 +677,9 @@ size_t derTBITDec(octet* val, size_t* len, const octet der[], size_t count,
 	// в значении менее одного октета?
 	// число битов дополнения больше 7?
 	// биты дополнения в несуществующем октете?
-	if (l < 1 || v[0] > 7 || v[0] != 0 && l == 1) 
+	// ненулевые биты дополнения?
+	if (l < 1 || v[0] > 7 || v[0] != 0 && l == 1 ||
+		v[0] != 0 && (v[l - 1] & ((1 << v[0]) - 1)) != 0)
 		return SIZE_MAX;
 	// битовая длина (до записи в val: буферы val и der могут пересекаться)
 	l = (l - 1) * 8 - v[0];
@@ -710,7 +712,9 @@ size_t derTBITDec2(octet* val, const octet der[], size_t count, u32 tag,
 	// число битов дополнения больше 7?
 	// биты дополнения в несуществующем октете?
 	// длина не соответствует ожидаемой?
-	if (l < 1 || v[0] > 7 || v[0] != 0 && l == 1 || (l - 1) * 8 != len + v[0])
+	// ненулевые биты дополнения?
+	if (l < 1 || v[0] > 7 || v[0] != 0 && l == 1 || (l - 1) * 8 != len + v[0] ||
+		v[0] != 0 && (v[l - 1] & ((1 << v[0]) - 1)) != 0)
 		return SIZE_MAX;
 	// возвратить строку
 	if (val)
